@@ -5,7 +5,8 @@
 // 300-byte length, a deletion marker, a key with 0xFF bytes): the ids, the bytes that are signed, the postcard bytes of SignedEntry, of a
 // Capability, of a reconciliation Message carrying the entries, and the length-prefixed frame of the sync protocol - compared with
 // literals taken from the pinned tree; Capability::raw / from_raw and its postcard form round-trip for write and read capabilities, also for read ids
-// that are not curve points. (ed25519 signatures are deterministic, so the bytes are reproducible.)
+// that are not curve points. (ed25519 signatures are deterministic, so the bytes are reproducible.) Record identifiers of every length 0..=70: shorter
+// than 64 bytes refused when decoding, otherwise unchanged with all accessors answering.
 #[cfg(test)]
 mod verif_rp_c09_pinned {
     use super::*;
@@ -90,5 +91,31 @@ Capability::raw = 1:010101010101010101010101010101010101010101010101010101010101
             assert_eq!(g, w, "WITNESS pinned encoding changed: now `{g}`, pinned `{w}`");
         }
         assert_eq!(got.lines().count(), PINNED.lines().count(), "WITNESS number of pinned lines");
+    }
+
+    /// hostile bytes: a record identifier shorter than the two ids it must contain is refused when decoding (its accessors slice at 32 and 64),
+    /// every length from 64 on decodes unchanged and every accessor answers
+    #[test]
+    fn short_record_identifiers_are_refused_when_decoding() {
+        for n in 0usize..=70 {
+            let raw = bytes::Bytes::from(vec![7u8; n]);
+            let enc = postcard::to_stdvec(&raw).unwrap();
+            let dec: std::result::Result<RecordIdentifier, _> = postcard::from_bytes(&enc);
+            if n < 64 {
+                assert!(dec.is_err(), "WITNESS a record identifier of {n} bytes decodes (namespace(), author() and key() would slice out of range)");
+            } else {
+                let id = match dec { Ok(id) => id, Err(e) => panic!("WITNESS a record identifier of {n} bytes does not decode: {e}") };
+                assert_eq!(id.as_ref(), &raw[..], "WITNESS a decoded record identifier of {n} bytes differs from its bytes");
+                assert_eq!((id.namespace().to_bytes().len(), id.author().to_bytes().len(), id.key().len()), (32, 32, n - 64), "WITNESS parts of a decoded record identifier of {n} bytes");
+            }
+        }
+        // the same inside a signed entry arriving from the network
+        let short = bytes::Bytes::from(vec![7u8; 10]);
+        let mut enc = vec![];
+        enc.extend(postcard::to_stdvec(&([1u8; 64].to_vec(), [2u8; 64].to_vec())).unwrap());
+        enc.extend(postcard::to_stdvec(&short).unwrap());
+        enc.extend([0u8; 48]);
+        let dec: std::result::Result<SignedEntry, _> = postcard::from_bytes(&enc);
+        if let Ok(e) = dec { let r = std::panic::catch_unwind(std::panic::AssertUnwindSafe(|| { let _ = (e.namespace(), e.author(), e.key().len()); })); assert!(r.is_ok(), "WITNESS a signed entry with a 10-byte identifier decodes and its accessors panic"); }
     }
 }
